@@ -28,7 +28,7 @@ func C14(r *core.Run) {
 	optionOwnLine(r)
 	packageListingByDirectory(r)
 	exportsOfThisPackageOnly(r) // which file of a package declares a name does not depend on the listing order
-	freshExtensions(r) // no message is shared between the outputs of two conversions: what was compiled earlier does not show
+	freshExtensions(r)          // no message is shared between the outputs of two conversions: what was compiled earlier does not show
 }
 
 // optionOrder (R-DET/N3): Builder.OptionsFor collects the options of an
